@@ -745,8 +745,9 @@ func init() {
 	Registry["C20"] = &Family{
 		Gen: func(g GenCtx) interface{} {
 			if g.Idx%4 == 3 {
-				j := genJoin(g, generatedJoins[(g.Idx/4)%len(generatedJoins)])
-				if j.Kind != "ingress-service" && g.Rng.Intn(2) == 0 {
+				overrun := (g.Idx/4)%5 == 2 // the source monitor overruns its buffer (join.go: genJoinOverrun)
+				j := genJoin(g, generatedJoins[(g.Idx/4)%len(generatedJoins)], overrun)
+				if !overrun && j.Kind != "ingress-service" && g.Rng.Intn(2) == 0 {
 					addDecisiveBurst(g.Rng, j) // the same decisive ordering scenario for every generated join
 				}
 				return &C20Mix{Join: j}
